@@ -115,7 +115,15 @@ fn parse_sat(s: &str) -> Value {
   }
 }
 
+/// every attribute of a sat; a panic in any of the functions under test is recorded, not suffered
 pub fn sat_record(s: Sat) -> Value {
+  match catch(move || sat_record_inner(s)) {
+    Ok(v) => v,
+    Err(text) => json!({"f": "sat", "s": limbs(s.0 as u128), "panic": text.chars().take(120).collect::<String>()}),
+  }
+}
+
+fn sat_record_inner(s: Sat) -> Value {
   let d = s.degree();
   let name = s.name();
   let charms: Vec<String> = Charm::charms(s.charms()).iter().map(|c| c.to_string()).collect();
@@ -170,7 +178,13 @@ pub fn sats(rng: &mut StdRng, n: usize, all_from: Option<(u32, u32)>, out: &mut 
   }
   for h in heights {
     let hh = Height(h);
-    out.push(json!({"f": "height", "h": h, "start": limbs(hh.starting_sat().0 as u128), "sub": limbs(hh.subsidy() as u128)}));
+    match catch(move || (hh.starting_sat().0, hh.subsidy())) {
+      Ok((start, subsidy)) => out.push(json!({"f": "height", "h": h, "start": limbs(start as u128), "sub": limbs(subsidy as u128)})),
+      Err(text) => {
+        out.push(json!({"f": "height", "h": h, "panic": text.chars().take(120).collect::<String>()}));
+        continue;
+      }
+    }
     let sub = hh.subsidy();
     if sub > 0 {
       let first = hh.starting_sat().0;
